@@ -30,6 +30,17 @@ CLAIMED = {
    note=TB + "secp256k1 itself (ECDSA/Schnorr verification, low-S test) is outside the model: an oracle answered by tools/refcrypto.py and compared with the implementation's verdicts through the session outcome. The legacy/BIP143/BIP341 preimage layouts are hand-modelled (Sighash.v) and cross-checked by tools/gen_spend.py's independent implementation. Known finding F31.",
    technique="Coq proofs about digest models and signature opcodes + differential correspondence incl. verification-call arguments (ld --wrap) with independently signed spends",
    ref="DESIGN.md §2 C02"),
+ "C11": dict(
+   text="Theorems (Properties/C11.v): a listed (signature, key) pair makes EvalChecksig succeed and counts as a match in the CHECKMULTISIG loop before "
+        "any checker/flag/encoding/version is consulted; every pair of every list the option parser accepts is honoured (table invariant proved over the "
+        "parser); a non-listed signature for a mocked key gets exactly the verdict without the option (CHECKSIG family) or no match (CHECKMULTISIG); "
+        "checks over unmocked keys - EvalChecksig, the multisig loop and its FindAndDelete pass - equal the run with the option removed; accepted "
+        "lists have alternating ':' ',' separators and a dangling signature is refused. Tie: parsed tables and sessions (CHECKSIG, CHECKSIGVERIFY, "
+        "CHECKSIGADD, CHECKMULTISIG; versions 0/1/3; flag sets; with and without transaction) vs model; impl-only relations listed=>success and "
+        "no-mocked-key => identical to the run without the option.",
+   note=TB + "Whole-script non-interference is stated per signature check (the only places the table is read), not as one theorem over StepScript.",
+   technique="Coq proofs (parser invariant, per-opcode non-interference) + differential correspondence + with/without-option relation on the implementation",
+   ref="DESIGN.md §2 C11"),
  "C03": dict(
    text="Theorems (Properties/C03.v): the selected input references the funding transaction through an existing output, an explicit selection is "
         "honoured or refused, automatic selection takes the first referencing input; amount and locking script come from the referenced output; "
